@@ -34,3 +34,27 @@ Theorem C04_required_space : forall n, 0 <= n < two64 ->
   required_space_u n = Z.of_nat (length (encode_var n)).
 Proof. exact required_space_u_len. Qed.
 Print Assumptions C04_required_space.
+
+(* zero_copy_len (DESIGN 5.4 C04_zero_copy_len).  In the model the nodes a writer inserts into a LinkedBytes are
+   the [Node] segments it returns and Proto.zc_len sums their lengths (the Rust writers do `zero_copy_len +=
+   b.len()` beside every `trans.insert(b)`; the number is compared with zero_copy_len() of the implementation on
+   every correspondence case).  Proved: for every protocol, buffer kind, value and starting context, whenever the
+   write succeeds, that sum is the total length of the value's binaries at or above ZERO_COPY_THRESHOLD when the
+   buffer is a LinkedBytes with zero-copy on ([zc_spec]) and 0 on every other buffer kind, and the bytes written
+   split into the copied part and the inserted part *)
+From PV Require Import Proofs.UnsafeP Proofs.BalanceP.
+Theorem C04_zero_copy_len : forall p k v c ss c',
+  write_val p k v c = Ok (ss, c') ->
+  zc_len ss = zc_spec k v /\
+  Z.of_nat (length (flat ss)) = copy_len ss + zc_len ss /\
+  (k <> BLinked true -> zc_len ss = 0).
+Proof. exact zero_copy_len_exact. Qed.
+Print Assumptions C04_zero_copy_len.
+
+(* what callers allocate from (`size - zero_copy_len`): the reported size minus zero_copy_len is exactly the
+   number of bytes copied into the contiguous part of the buffer *)
+Theorem C04_malloc_size : forall p k v c ss c',
+  wt v = true -> pend_ok c -> write_val p k v c = Ok (ss, c') ->
+  exists n, len_val p v c = Ok (n, c') /\ n - zc_len ss = copy_len ss /\ zc_len ss = zc_spec k v.
+Proof. exact malloc_size_exact. Qed.
+Print Assumptions C04_malloc_size.
